@@ -19,6 +19,7 @@ M = [
     ('C01', 'rsa-verify-true-on-invalid', 'pgpy/packet/fields.py', "            self.__pubkey__().verify(sigbytes, subj, padding.PKCS1v15(), hash_alg)\n        except InvalidSignature:\n            return False", "            self.__pubkey__().verify(sigbytes, subj, padding.PKCS1v15(), hash_alg)\n        except InvalidSignature:\n            return True"),
     ('C01', 'eddsa-verify-true-on-invalid', 'pgpy/packet/fields.py', "            self.__pubkey__().verify(sigbytes, subj)\n        except InvalidSignature:\n            return False", "            self.__pubkey__().verify(sigbytes, subj)\n        except InvalidSignature:\n            return True"),
     ('C01', 'timestamp-check-removed', 'pgpy/pgp.py', "                elif sig.type in {SignatureType.Standalone, SignatureType.Timestamp} and subj is not None:", "                elif False:"),
+    ('C02', 'attestation-not-hashed-c02', 'pgpy/pgp.py', "SignatureType.Positive_Cert, SignatureType.Attestation, SignatureType.CertRevocation}:", "SignatureType.Positive_Cert, SignatureType.CertRevocation}:"),
     ('C01', 'attestation-not-hashed', 'pgpy/pgp.py', "SignatureType.Positive_Cert, SignatureType.Attestation, SignatureType.CertRevocation}:", "SignatureType.Positive_Cert, SignatureType.CertRevocation}:"),
     ('C02', 'hashed-area-without-length', 'pgpy/pgp.py', "        hcontext += self._signature.subpackets.__hashbytearray__()\n", "        hcontext += self._signature.subpackets.__hashbytearray__()[2:]\n"),
     ('C02', 'hash2-wrong-offset', 'pgpy/pgp.py', "bytearray(h2.digest()[:2])", "bytearray(h2.digest()[1:3])"),
@@ -31,11 +32,14 @@ M = [
     ('C03', 'mdc-without-d314-both-sides', 'pgpy/packet/packets.py', ["hashlib.new('SHA1', data + b'\\xd3\\x14').digest()", "        _expected_mdcbytes = b'\\xd3\\x14' + hashlib.new('SHA1', pt[:-20]).digest()"], ["hashlib.new('SHA1', data).digest()", "        _expected_mdcbytes = b'\\xd3\\x14' + hashlib.new('SHA1', pt[:-22]).digest()"]),
     ('C03', 'zip-with-zlib-header', 'pgpy/constants.py', ["            return zlib.compress(data)[2:-4]", "            return zlib.decompress(data, -15)"], ["            return zlib.compress(data)", "            return zlib.decompress(data)"]),
     ('C04', 'mdc-compare-inverted', 'pgpy/packet/packets.py', "        if not constant_time.bytes_eq(bytes(pt[-22:]), _expected_mdcbytes):", "        if False:"),
-    ('C04', 'quick-check-deleted', 'pgpy/packet/packets.py', "        if not constant_time.bytes_eq(iv[-2:], ivl2):\n            raise PGPDecryptionError(\"Decryption failed\")  # pragma: no cover\n\n        return pt", "        return pt"),
-    ('C04', 'pkesk-checksum-dropped', 'pgpy/packet/packets.py', "        if not sum(symkey) % 65536 == checksum:  # pragma: no cover", "        if False:"),
-    ('C04', 'mdc-first-10-octets-only', 'pgpy/packet/packets.py', "        if not constant_time.bytes_eq(bytes(pt[-22:]), _expected_mdcbytes):", "        if not constant_time.bytes_eq(bytes(pt[-22:-10]), _expected_mdcbytes[:12]):"),
+    ('C04', 'mdc-only-packet-header-compared', 'pgpy/packet/packets.py', "        if not constant_time.bytes_eq(bytes(pt[-22:]), _expected_mdcbytes):", "        if not constant_time.bytes_eq(bytes(pt[-22:-20]), _expected_mdcbytes[:2]):"),
+    ('C04', 'decrypt-catch-all-returns-garbage', 'pgpy/pgp.py', "        decmsg = PGPMessage()\n        decmsg.parse(message.message.decrypt(key, alg))\n\n        return decmsg", "        decmsg = PGPMessage()\n        try:\n            decmsg.parse(message.message.decrypt(key, alg))\n        except Exception:\n            decmsg = PGPMessage.new(bytes(message.message.ct[:12]), format='b', compression=CompressionAlgorithm.Uncompressed)\n\n        return decmsg"),
+    ('C04', 'wrong-passphrase-falls-back-to-zero-key', 'pgpy/pgp.py', "        else:\n            raise PGPDecryptionError(\"Decryption failed\")\n\n        return decmsg", "        else:\n            return self\n\n        return decmsg"),
+    ('C04', 'EQUIVALENT-quick-check-deleted', 'pgpy/packet/packets.py', "        if not constant_time.bytes_eq(iv[-2:], ivl2):\n            raise PGPDecryptionError(\"Decryption failed\")  # pragma: no cover\n\n        return pt", "        return pt"),
+    ('C04', 'EQUIVALENT-pkesk-checksum-dropped', 'pgpy/packet/packets.py', "        if not sum(symkey) % 65536 == checksum:  # pragma: no cover", "        if False:"),
+    ('C04', 'EQUIVALENT-mdc-first-10-octets-only', 'pgpy/packet/packets.py', "        if not constant_time.bytes_eq(bytes(pt[-22:]), _expected_mdcbytes):", "        if not constant_time.bytes_eq(bytes(pt[-22:-10]), _expected_mdcbytes[:12]):"),
     ('C05', 'raw-retention-off', 'pgpy/packet/fields.py', "        if self._hashed_raw is not None:\n            current", "        if False:\n            current"),
-    ('C05', 'boolean-typo-back', 'pgpy/packet/subpackets/signature.py', "        self.bflag = bool(self.bytes_to_int(val))", "        self.bool = bool(self.bytes_to_int(val))"),
+    ('C14', 'boolean-typo-back', 'pgpy/packet/subpackets/signature.py', "        self.bflag = bool(self.bytes_to_int(val))", "        self.bool = bool(self.bytes_to_int(val))"),
     ('C05', 'hash-unhashed-length-too', 'pgpy/pgp.py', "        hcontext += self._signature.subpackets.__hashbytearray__()\n", "        hcontext += self._signature.subpackets.__hashbytearray__() + self._signature.subpackets.__unhashbytearray__()[:2]\n"),
     ('C06', 'unlock-finally-clear-removed', 'pgpy/pgp.py', "            for sk in itertools.chain([self], self.subkeys.values()):\n                sk._key.keymaterial.clear()\n", "            pass\n"),
     ('C06', 'clear-only-primary', 'pgpy/pgp.py', "            for sk in itertools.chain([self], self.subkeys.values()):\n                sk._key.keymaterial.clear()\n", "            self._key.keymaterial.clear()\n"),
@@ -86,7 +90,8 @@ def main(argv):
     props = [a for a in argv if a.startswith('C')]
     tier = 'quick'
     results = []
-    todo = [m for m in M if not props or m[0] in props]
+    only = [a[2:] for a in argv if a.startswith('-k')]
+    todo = [m for m in M if (not props or m[0] in props) and (not only or any(o in m[1] for o in only)) and ('EQUIVALENT' not in m[1] or '--all' in argv)]
     for m in todo:
         scratch = tempfile.mkdtemp(prefix='vfmut')
         try:
